@@ -106,6 +106,7 @@ func runC26x(c c26Case) *vstat.Failure {
 	files := map[int]*c26File{}  // model of the directory
 	running := map[string]string{} // model: program name -> stamp it runs
 	nstamp := 0
+	history := map[int][]string{} // slot -> stamps of the valid contents it held, oldest first
 	apply := func(a c26Act) {
 		s := a.Slot % len(c26Slots)
 		switch a.Op {
@@ -138,6 +139,30 @@ func runC26x(c c26Case) *vstat.Failure {
 				panic(err)
 			}
 			files[s] = &c26File{stamp: st}
+			history[s] = append(history[s], st)
+		case "revert":
+			// write again what the slot held one or two contents ago (an edit
+			// undone, or a removed file put back unchanged)
+			h := history[s]
+			if len(h) == 0 || (files[s] != nil && files[s].isDir) {
+				return
+			}
+			back := 1 + a.To%2
+			if back > len(h) {
+				back = len(h)
+			}
+			old := h[len(h)-back]
+			if files[s] != nil && !files[s].broken && files[s].stamp == old {
+				if len(h) < 2 {
+					return
+				}
+				old = h[len(h)-2]
+			}
+			if err := os.WriteFile(path(s), []byte(c26Source(old)), 0o644); err != nil {
+				panic(err)
+			}
+			files[s] = &c26File{stamp: old}
+			history[s] = append(history[s], old)
 		case "remove":
 			if files[s] == nil {
 				return
@@ -325,7 +350,7 @@ func TestC26(t *testing.T) {
 	st := vstat.New("C26", "histories over a real program directory (3 eligible program files, a dot-file, a .txt file, a .bak file, files in a subdirectory, a directory with an eligible-looking name): write a new version / the same bytes / a broken version, remove, rename between any two slots (eligible <-> ineligible, program <-> program), each followed by LoadAllPrograms, K lines and quiescence; every (file, version) counts lines under its own stamp, the model predicts which stamps advance by K. non-trivial = a history with a broken edit of a running program followed by a valid edit, or a rename involving an eligible name; distinct by history")
 	st.Assumptions = []string{"lines fully processed per program name are read from the exported vm.LineProcessingDurations histogram", "a scan is observed when LoadAllPrograms returns"}
 	st.Run(t, c26RunRaw, func() {
-		ops := []string{"new", "new", "same", "broken", "broken", "remove", "rename", "rename", "dir", "scan"}
+		ops := []string{"new", "new", "same", "broken", "broken", "remove", "remove", "revert", "revert", "rename", "rename", "dir", "scan"}
 		st.Check(t, func(rt *rapid.T) {
 			var c c26Case
 			defer st.Guard(func() any { return c })
@@ -337,7 +362,7 @@ func TestC26(t *testing.T) {
 				} else {
 					a.Slot = rapid.IntRange(0, len(c26Slots)-1).Draw(rt, label+"slot")
 				}
-				if a.Op == "rename" {
+				if a.Op == "rename" || a.Op == "revert" {
 					a.To = rapid.IntRange(0, len(c26Slots)-1).Draw(rt, label+"to")
 				}
 				return a
